@@ -179,6 +179,17 @@ pub fn judge(case: &Value) -> Option<Value> {
     match r {
         Outcome::Panic(m) => why.push(format!("panic: {}", m)),
         Outcome::Done((t, refused)) => {
+            // where the result of a mutating operation starts in its buffer is part of its meaning (open-bitstr shows it
+            // as `offset`): it must be what the specification says, whoever else holds the buffer
+            if matches!(op, "append" | "invert" | "detach" | "insert") {
+                if let (Some(hi), Some(starts)) = (hix("h"), case["starts"].as_array()) {
+                    if let (Some(bs), Some(want)) = (t[hi].as_ref(), starts.get(hi).and_then(|x| x.as_u64())) {
+                        if bs.start() as u64 != want {
+                            why.push(format!("handle {}: the result starts at bit {} of its buffer, the specification says {}", hi + 1, bs.start(), want));
+                        }
+                    }
+                }
+            }
             // operations with absolute positions: refused exactly when the specification says so
             if let Some(got) = refused {
                 let want = a["none"].as_u64().unwrap_or(0) == 1;
